@@ -434,7 +434,7 @@ def run_shard(spec, acc):
         check_case(spec["witness"]["seed"], acc, silent=bool(spec["witness"].get("silent")), ranked=bool(spec["witness"].get("ranked")))
         return
     tier, k, n = spec["tier"], spec["shard"], spec["nshards"]
-    total = 2000 if tier == "quick" else 80000
+    total = 4000 if tier == "quick" else 80000
     rng = random.Random("C10/%s/%s" % (spec["seed"], k))
     for j in range(total // n):
         w = check_case(rng.randrange(1 << 48), acc)
